@@ -196,6 +196,8 @@ def python_sweep(ctx):
         names, sizes = gen.lead_dims(rng, nlead=int(rng.choice([0, 1, 2])), maxsize=2, allow=("time", "site"))
         npos = int(np.prod(sizes)) if sizes else 1
         A = np.array([degenerate(rng, f, th, cls) for _ in range(npos)]).reshape(tuple(sizes) + (nf, nd))
+        # energy level: data kept in cm2/Hz (heights of tens of "metres") or nearly calm
+        A = A * float(rng.choice([1.0, 1.0, 1.0, 1.0, 1e4, 1e-8]))
         edt = str(rng.choice(["float64", "float32"]))
         da = gen.make_da(A, f, th, names, sizes, dtype=edt)
         sweep_one(rec, rng, xr, da, cls, nf, nd, names)
@@ -244,6 +246,9 @@ def sweep_one(rec, rng, xr, da, cls, nf, nd, names):
         "ptm4": lambda: da.spec.partition.ptm4(wspd, wdir, dpt),
         "bbox": lambda: da.spec.partition.bbox([dict(fmin=float(f[0]), fmax=float(f[-1]) + 1, dmin=0.0, dmax=180.0)]),
     }
+    if nf >= 4 and rng.random() < 0.15:
+        ops["fit_jonswap"] = lambda: da.spec.fit_jonswap(spectra=False, params=True)
+        ops["fit_gaussian"] = lambda: da.spec.fit_gaussian(spectra=False, params=True)
     if nf > 1:
         ops["split"] = lambda: acc.split(fmin=float(f[0]), fmax=fmid)
         ops["ptm5"] = lambda: da.spec.partition.ptm5(fcut=fmid)
@@ -276,10 +281,10 @@ def sweep_one(rec, rng, xr, da, cls, nf, nd, names):
         if op in NEVER_NAN:
             allowed = False
         elif op in NAN_IF_ZERO or op in ("swe", "dm", "dp", "gamma", "stats_split", "stats_split_narrow"):
-            allowed = bool(zero.any()) or op in ("gw",) or (op == "hmax") or (op in ("dspr", "fdspr"))
+            allowed = bool(zero.any()) or op in ("gw",) or (op in ("dspr", "fdspr"))
         if op in NAN_IF_NOPEAK:
             allowed = bool(nopeak.any())
-        if op in ("sw", "stats_split", "stats_split_narrow"):
+        if op in ("sw", "stats_split", "stats_split_narrow", "fit_jonswap", "fit_gaussian"):
             allowed = True  # sw documents masking below hs 0.001; a split band can be empty
         if op in ("dpspr",):
             allowed = True  # spread of a (near) unidirectional row is at the rounding floor
